@@ -1,5 +1,5 @@
 (* C17 — Rerun file lists exactly the unsuccessful scenarios; fed back it selects them. *)
-From BV Require Import Base Status Rollup Runner Summary Select SelectProofs Rerun.
+From BV Require Import Base Status Rollup Runner Summary Select SelectProofs Rerun RunnerSteps RerunMore.
 From BVGen Require Import StatusTable.
 
 Theorem rerun_lists_exactly_the_unsuccessful_scenarios :
@@ -30,3 +30,15 @@ Theorem feeding_the_rerun_list_back_selects_exactly_it :
     selected_ids f (map (fun s => Some (ls_line s)) listed) = ids listed.
 Proof. exact feedback_selects_exactly_the_listed. Qed.
 Print Assumptions feeding_the_rerun_list_back_selects_exactly_it.
+
+(* in run order: the list is a subsequence of the scenario ids in the order in which the run
+   walked them; with distinct ids nothing is listed twice *)
+Theorem the_rerun_list_is_in_run_order :
+  forall rs, subseq (rerun_ids rs) (map sr_id (scen_results rs)).
+Proof. exact rerun_list_is_in_run_order. Qed.
+Print Assumptions the_rerun_list_is_in_run_order.
+
+Theorem the_rerun_list_has_no_duplicates :
+  forall rs, NoDup (map sr_id (scen_results rs)) -> NoDup (rerun_ids rs).
+Proof. exact rerun_list_has_no_duplicates. Qed.
+Print Assumptions the_rerun_list_has_no_duplicates.
